@@ -39,6 +39,7 @@ def run(chk, repo):
     chk.doc("R12.4", "frame index ownership")
     chk.doc("R12.5", "single consumer / single producer of send_queue")
     r1(chk, repo)
+    frame_answers(chk, repo)
     r2(chk, repo)
     r3_progress(chk, repo)
     r4(chk, repo)
@@ -168,6 +169,39 @@ def r3_progress(chk, repo):
     chk.ob(rule, sym, "the request that cannot fit is failed", failed, h.tag,
            "in the empty-packet branch the pending future receives the "
            "exception")
+
+
+def frame_answers(chk, repo, rule="R12.9"):
+    """who may complete the future of a frame in flight: the response
+    that carries its index (datagram_received), nobody else.  A method -
+    here or in a master derived from EtherCat - that goes through
+    wait_futures and completes what it finds there answers requests the
+    bus may well have processed: their real responses arrive later as
+    'unknown packets', and whoever reads an EtherCatError as 'not
+    processed' (find_free_address) draws the wrong conclusion."""
+    chk.doc(rule, "frames in flight are completed by their own response "
+                  "only")
+    base = repo.cls(ETH + "EtherCat")
+    n = 0
+    bad = []
+    for ci in repo.subclasses(base.qualname):
+        if ci.module.name.endswith("_test"):
+            continue
+        for name, f in ci.methods.items():
+            if not isinstance(f, FUNC) or not find("self.wait_futures", f):
+                continue
+            n += 1
+            done = [c for c in calls_in(f) if isinstance(
+                c.func, ast.Attribute) and c.func.attr in (
+                    "set_result", "set_exception", "cancel")]
+            if done and name != "datagram_received":
+                bad.append((done[0], f"{ci.qualname}.{name}"))
+    chk.floor(rule, "methods that touch wait_futures", n, 2)
+    chk.ob(rule, base.qualname, "only datagram_received completes futures "
+           "taken from wait_futures", not bad, bad[0][0] if bad else
+           base.node, (f"{bad[0][1]} completes the futures of frames that "
+                       f"are still on the wire") if bad else
+           f"{n} methods use the table")
 
 
 def r1(chk, repo):
@@ -303,6 +337,34 @@ def r2(chk, repo):
            "this datagram", ok, call, "; ".join(why) or
            "both elements are unpacked from one packet.append(*dgram) call "
            "in the same iteration")
+    # ... and it was returned: where the append raised (packet full) the
+    # names still hold the pair of the datagram before
+    if srcs:
+        src_nodes = cfg.nodes_containing(srcs[0])
+        hs = [n_ for n_ in cfg.nodes if n_.kind == "except"
+              and n_.tag.type is not None
+              and "OverflowError" in unparse(n_.tag.type)]
+        stale = None
+        for h_ in hs:
+            seen_, todo_ = set(), [h_]
+            while todo_ and stale is None:
+                x_ = todo_.pop()
+                for m_, lab_ in x_.succ:
+                    if m_.id in seen_ or m_ in src_nodes:
+                        continue
+                    seen_.add(m_.id)
+                    if m_ is node:
+                        stale = h_
+                        break
+                    todo_.append(m_)
+        chk.ob(rule, sym, "the pair is stored only where the append "
+               "succeeded", stale is None, call,
+               "the tuple is appended on a path from the OverflowError "
+               "handler that does not pass the packet.append again: the "
+               "request that did not fit is recorded with the positions of "
+               "its predecessor and is answered with that datagram's bytes"
+               if stale is not None else "no path from the handler reaches "
+               "the store without a new append")
     # the future of the tuple is the one that came with this datagram
     fe = b["f"]
     okf = False
